@@ -358,6 +358,7 @@ class World:
         self.ctx = self.sdc.client('Context')
         self.counter = 0
         self.last_sel = {}
+        self.deleted_ctx = []   # (handle, parent handle, node type local name) of context descriptors removed by the generator
         self.created = []   # handles of descriptors created by the generator (alive)
         self.deleted = []   # handles deleted by the generator (candidates for re-creation): (handle, parent, kind)
         from sdc11073.mdib import consumermdib
@@ -614,6 +615,8 @@ class TxGen:
 
     def tx_set_location(self):
         from sdc11073.location import SdcLocation
+        if not _handles(self.mdib, lambda d: d.NODETYPE.localname == 'LocationContextDescriptor'):
+            return self.tx_metric()
         loc = SdcLocation(fac=self.rng.choice(['fac1', 'fac2']), poc=self.rng.choice(['CU1', 'CU2']),
                           bed=f'b{self.rng.randint(1, 500)}')
         if self.rng.random() < 0.5:
@@ -782,6 +785,31 @@ class TxGen:
                 self.w.deleted.append(x)
         return f'descr delete {kind} ({len(sub)})'
 
+    def tx_descr_delete_context(self):
+        """a context descriptor that has several context states is removed (all its states go with it); it is created
+        again by a later transaction (`tx_descr_restore_context`)"""
+        cands = [dh for dh in _handles(self.mdib, lambda d: d.is_context_descriptor)
+                 if len(self.mdib.context_states.descriptor_handle.get(dh, [])) >= 2]
+        if not cands:
+            return self.tx_context_new()
+        dh = self.rng.choice(cands)
+        d = self.mdib.descriptions.handle.get_one(dh)
+        n = len(self.mdib.context_states.descriptor_handle.get(dh, []))
+        self.w.deleted_ctx.append((dh, d.parent_handle, d.NODETYPE.localname))
+        with self.mdib.descriptor_transaction() as tr:
+            tr.remove_descriptor(dh)
+        return f'descr delete context-descriptor ({n} states)'
+
+    def tx_descr_restore_context(self):
+        if not self.w.deleted_ctx:
+            return self.tx_context_new()
+        dh, parent, localname = self.w.deleted_ctx.pop(0)
+        cls = self.mdib.data_model.get_descriptor_container_class(getattr(self.pm, localname))
+        nd = cls(handle=dh, parent_handle=parent)
+        with self.mdib.descriptor_transaction() as tr:
+            tr.add_descriptor(nd)
+        return 'descr create context-descriptor'
+
     def tx_empty(self):
         """a transaction that commits without any change (nothing got / written, or a disassociate_all that finds nothing
         associated): no MdibVersion increment, no report"""
@@ -812,7 +840,7 @@ class TxGen:
             tr.write_entity(ent)
         return f'descr update context-clear {len(drop)}/{len(handles)}'
 
-    KINDS = (('tx_empty', 2), ('tx_descr_context_clear', 1), ('tx_metric', 5), ('tx_string_metric', 1), ('tx_alert', 3), ('tx_component', 2), ('tx_operational', 2),
+    KINDS = (('tx_empty', 2), ('tx_descr_context_clear', 1), ('tx_descr_delete_context', 1), ('tx_descr_restore_context', 2), ('tx_metric', 5), ('tx_string_metric', 1), ('tx_alert', 3), ('tx_component', 2), ('tx_operational', 2),
              ('tx_rt', 2), ('tx_context_new', 3), ('tx_context_update', 3), ('tx_context_delete', 1), ('tx_set_location', 2),
              ('tx_descr_update', 5), ('tx_descr_create', 4), ('tx_descr_delete', 3))
 
@@ -920,7 +948,7 @@ class HistoryRecorder:
             h.reports.append(self.w.abstract_report(h.abs, w))
             h.tx_of_wire.append(i)
             for m, d, _, _ in h.reports[-1].parts:
-                if m == 1 and d[2] == 5:
+                if m in (1, 2) and d[2] == 5:     # UPDATE lists the remaining states, DELETE removes all of them
                     h.heals.setdefault(i, set()).add(d[0])
         if desc.startswith('context delete'):
             h.excluded_tx[i] = h.abs.h(desc.split(' ')[-1])
@@ -1619,10 +1647,14 @@ class Runner:
                     below.add(k)
                     break
                 a, n = parent.get(a), n + 1
-        orphans = sorted(k for tab in (new[1], new[2]) for k, st in tab.items() if (st[0] if tab is new[1] else st[1]) in below)
+        gone = deleted | below
+        orphans = sorted(k for tab in (new[1], new[2]) for k, st in tab.items() if (st[0] if tab is new[1] else st[1]) in gone)
         if below:
             self.fail('deleted-descriptor-keeps-subtree', f'{where}: descriptor(s) #{sorted(deleted)} deleted, the consumer still holds '
                                                           f'descriptors #{sorted(below)} below them (states of them: #{orphans})')
+        elif orphans:
+            self.fail('deleted-descriptor-keeps-states', f'{where}: descriptor(s) #{sorted(deleted)} deleted, the consumer still holds '
+                                                         f'state(s) / context state(s) #{orphans} of them (states without descriptor)')
 
     def _count_branches(self, rep, before_vg, old):
         """which branches of the handlers this delivery exercises (evidence only)"""
@@ -2367,9 +2399,41 @@ def scenario_two_mds_interleaved(world, rng):
     return rec.hist, [('reload', 0, 0, [])] + [('deliver', i) for i in w]
 
 
+def scenario_delete_context_descriptor(world, rng):
+    """a context descriptor with three context states is deleted (one in-order DELETE part): the consumer has to drop the
+    descriptor and all three states; afterwards the descriptor is created again"""
+    gen = TxGen(world, rng)
+    rec = HistoryRecorder(world)
+    mdib = world.mdib
+    pat = _first(mdib, 'PatientContextDescriptor')
+    parent = mdib.descriptions.handle.get_one(pat).parent_handle
+
+    def new_state():
+        with mdib.context_state_transaction() as tr:
+            st = tr.mk_context_state(pat, gen._new_handle('scn_dc'), set_associated=False)  # noqa: SLF001
+            st.CoreData.Givenname = 'p'
+        return 'context new pat'
+
+    def delete():
+        n = len(mdib.context_states.descriptor_handle.get(pat, []))
+        with mdib.descriptor_transaction() as tr:
+            tr.remove_descriptor(pat)
+        return f'descr delete context-descriptor ({n} states)'
+
+    def restore():
+        cls = mdib.data_model.get_descriptor_container_class(gen.pm.PatientContextDescriptor)
+        with mdib.descriptor_transaction() as tr:
+            tr.add_descriptor(cls(handle=pat, parent_handle=parent))
+        return 'descr create context-descriptor'
+    w = rec.tx(new_state) + rec.tx(new_state) + rec.tx(new_state) + rec.tx(delete) + rec.tx(gen.tx_metric) + rec.tx(restore) + \
+        rec.tx(new_state)
+    return rec.hist, [('reload', 0, 0, [])] + [('deliver', i) for i in w]
+
+
 SCENARIOS_TWO_MDS = (scenario_two_mds_interleaved,)
 
-SCENARIOS = (scenario_ctx_answer_newer, scenario_siblings_one_parent, scenario_context_entity_new_state, scenario_lost_child_delete, scenario_empty_transactions, scenario_same_handles_twice,
+SCENARIOS = (scenario_ctx_answer_newer, scenario_siblings_one_parent, scenario_context_entity_new_state,
+             scenario_delete_context_descriptor, scenario_lost_child_delete, scenario_empty_transactions, scenario_same_handles_twice,
              scenario_context_clear_by_descriptor_tx, scenario_buffer_race, scenario_commit_during_getmdib, scenario_duplicates_announce_nothing, scenario_context_delete_heals, scenario_dup_create, scenario_alert_source, scenario_inflight_same_version,
              scenario_context_keys, scenario_orphan_state)
 
